@@ -176,7 +176,9 @@ impl C06 {
                 }
                 // an expectation that is none of PASS / FAIL / SKIP cannot "match the evaluated
                 // status": whatever the one-case run says, such a case is never a success
-                if c.expect.iter().any(|(_, st)| !matches!(st.as_str(), "PASS" | "FAIL" | "SKIP")) {
+                // (the cases are written for the first rules file: against another one the named
+                // rules do not exist and the command never looks at their expectations)
+                if ri == 0 && c.expect.iter().any(|(_, st)| !matches!(st.as_str(), "PASS" | "FAIL" | "SKIP")) {
                     if v == "0" {
                         rep.count("reach.misspelt_expectation_observed_as_success", 1);
                     }
@@ -272,7 +274,28 @@ impl C06 {
         let mut o = WlOpts::default();
         o.bad_expectations = true;
         o.gen = GenOpts { functions: r.chance(1, 3), ..Default::default() };
-        let wl = gen_workload(&mut r, &o);
+        let mut wl = gen_workload(&mut r, &o);
+        // a rules file that is evaluated on one document and SKIPs as a whole on another
+        if wl.docs.len() > 1 && r.chance(1, 5) {
+            let key = match &wl.docs[0].0 {
+                doc::J::Map(kv) if !kv.is_empty() => Some(kv[r.usize(kv.len())].0.clone()),
+                _ => None,
+            };
+            if let Some(gk) = key {
+                if crate::rules::is_ident_pub(&gk) {
+                    let victim = 1 + r.usize(wl.docs.len() - 1);
+                    if let doc::J::Map(kv) = &mut wl.docs[victim].0 {
+                        kv.retain(|(k, _)| *k != gk);
+                    }
+                    let t = r.usize(wl.progs.len());
+                    for rule in wl.progs[t].rules.iter_mut() {
+                        rule.when.insert(0, crate::rules::Line { alts: vec![crate::rules::Clause::Cmp(crate::rules::Cmp { not: false, q: crate::rules::Query { some: false, parts: vec![crate::rules::Part::Key(gk.clone())] }, op: crate::rules::Op::Exists, opnot: false, rhs: None, msg: None })] });
+                    }
+                    wl.progs[t].default_lines.clear();
+                    rep.count("gen.rules_file_skips_on_one_document", 1);
+                }
+            }
+        }
         let mut files = Vec::new();
         let mut rules = Vec::new();
         let mut data = Vec::new();
